@@ -454,6 +454,14 @@ def oracle_api(run):
            extra=dict(optimal_fit_edelta=True, range_x=[-1e-6, 1e-6]))
     differ("range_x", [-1e-6, 1e-6], [-1e-6, 2e-6],
            extra=dict(optimal_fit_edelta=True))
+    # ... also when the two bounds coincide: with the plateau search the
+    # upper bound is the end of every scan fit, not "the whole segment"
+    for ra, rb in [([1e-6, 1e-6], [2e-6, 2e-6]), ([1e-6, 1e-6], [0, 0]),
+                   ([2e-6, 2e-6], [0.0, 0.0]), ([-1e-6, 1e-6], [2e-6, 2e-6])]:
+        differ("range_x", ra, rb, extra=dict(optimal_fit_edelta=True))
+    same("range_x[0] dontcare with plateau search (coinciding bounds)",
+         _base=dict(optimal_fit_edelta=True, range_x=[0, 1e-6]),
+         optimal_fit_edelta=True, range_x=[1e-6, 1e-6])
     # preprocessing and data: through other curve objects
     variants = []
     for st2, op2 in [
